@@ -95,10 +95,10 @@ def build(tier):
     med_s = Fn('median_sorted', TU, 'median_sorted', flt='nano::', select=ptypes('const double *', 'const double *'), calls=stdmap)
     med = Fn('median', TU, 'median', flt='nano::', select=ptypes('double *', 'double *'), calls=stdmap)
     hcalls = [(r'^operator\(\)\|.*tensor_vector_storage_t, (double|long), 1', '{0}.p[{1}]'),
-              (r'^upper_bound\|(double|long) \*\((double|long) \*, (double|long) \*, const double &, \(lambda', 'nv_upper_bound_cmp({0}, {1}, {2})'),
-              (r'^lower_bound\|(double|long) \*\((double|long) \*, (double|long) \*, const (double|long) &\)', 'nv_lower_bound_elem({0}, {1}, {2})'),
+              (r'^upper_bound\|(double|long|signed char|short|int) \*\((double|long|signed char|short|int) \*, (double|long|signed char|short|int) \*, const double &, \(lambda', 'nv_upper_bound_cmp({0}, {1}, {2})'),
+              (r'^lower_bound\|(double|long|signed char|short|int) \*\((double|long|signed char|short|int) \*, (double|long|signed char|short|int) \*, const (double|long|signed char|short|int) &\)', 'nv_lower_bound_elem({0}, {1}, {2})'),
               (r'^distance\|', '({1} - {0})'), (r'^quiet_NaN\|', 'nv_quiet_nan()'),
-              (r'^median_sorted\|', 'nv_median_sorted_range({0}, {1})'), (r'^mean\|nano::scalar_t \((double|long) \*, (double|long) \*', 'nv_mean_range({0}, {1}, {2})')]
+              (r'^median_sorted\|', 'nv_median_sorted_range({0}, {1})'), (r'^mean\|nano::scalar_t \((double|long|signed char|short|int) \*, (double|long|signed char|short|int) \*', 'nv_mean_range({0}, {1}, {2})')]
     hmembers = [(r'^size\|.*tensor_base_t<double, 1', 'nv_t1d_size'), (r'^resize\|.*tensor_vector_storage_t(, |<)double, 1', 'nv_t1d_resize'),
                 (r'^resize\|.*tensor_vector_storage_t(, |<)long, 1', 'nv_t1i_resize'), (r'^(zero|full)\|', 'nv_fill_erased()'),
                 (r'^update_bin\|', 'update_bin_cov'), (r'^mean\|.*histogram_t.*#3', 'nv_mean_range({0}, {1}, {2})')]
@@ -115,6 +115,13 @@ def build(tier):
     targets += [Target('histogram_update_i64', [upd_i, updop_i()], 'specs/C20/update.h', replace=['update_op'], defines=['NV_ELEM=int64_t']),
                 Target('update_op_i64', [updop_i()], 'specs/C20/update.h', defines=['NV_ELEM=int64_t']),
                 Target('update_bin_i64', [updbin_i], 'specs/C20/update.h', defines=['NV_ELEM=int64_t'])]
+    # narrow integer sample types (int8_t, int32_t; int16_t in the thorough tier): the same contracts
+    for tag, cxx, cty in [('i8', 'signed char', 'int8_t'), ('i32', 'int', 'int32_t')] + ([('i16', 'short', 'int16_t')] if tier == 'thorough' else []):
+        mk_upd = lambda cxx=cxx: Fn('histogram_update', TU, 'update', flt='nano::histogram_t', select=targs(cxx + ' *'), **hk)
+        mk_op = lambda cxx=cxx: Fn('update_op', TU, 'update', flt='nano::histogram_t', select=targs(cxx + ' *'), lambda_index=0, optional=True, **hk_nolam)
+        mk_bin = lambda cxx=cxx: Fn('update_bin', TU, 'update_bin', flt='nano::histogram_t', select=targs(cxx + ' *'), **hk)
+        targets += [Target(f'histogram_update_{tag}', (lambda a=mk_upd, b=mk_op: [a(), b()]), 'specs/C20/update.h', enforce='histogram_update', replace=['update_op'], defines=[f'NV_ELEM={cty}']),
+                    Target(f'update_bin_{tag}', (lambda a=mk_bin: [a()]), 'specs/C20/update.h', enforce='update_bin', defines=[f'NV_ELEM={cty}'])]
     targets += [Target('histogram_update', [upd, updop()], 'specs/C20/update.h', replace=['update_op']),
                 Target('update_op', [updop()], 'specs/C20/update.h'), Target('update_bin', [updbin], 'specs/C20/update.h')]
     targets += [Target('from_position_sorted', [fps], 'specs/C20/stats.h'), Target('from_position_unsorted', [fpu], 'specs/C20/stats.h'),
